@@ -674,3 +674,151 @@ func TestC04Overlap(t *testing.T) {
 		c.Class(fmt.Sprintf("overlap/completed=%d", completed))
 	})
 }
+
+// c04Resign re-encodes a parked peering request with another challenge and
+// signs it again with the key of its (genuine) sender.
+func c04Resign(c *core.Case, msg []byte, challenge []byte, signer *ids.Identity) []byte {
+	fb := frame.NewFrameBuilder()
+	fb.SetFrameMargins(peering.FrameOffset, peering.FrameOverhead)
+	ps := fb.GetPooledSlice(len(msg) + 64)
+	copy(ps[2:], msg[2:])
+	f, err := fb.ParseFrame(ps[2:len(msg)], ps, 2)
+	if err != nil {
+		c.Fatalf("parse parked request: %v", err)
+	}
+	var req c04Request
+	if err := cbor.Unmarshal(f.MessageData(), &req); err != nil {
+		c.Fatalf("decode parked request: %v", err)
+	}
+	src, dst, mt := f.SrcIP(), f.DstIP(), f.MessageType()
+	f.ReturnToPool()
+	req.Challenge = challenge
+	body, _ := cbor.Marshal(&req)
+	fr, err := fb.NewFrameV1(src, dst, mt, nil, body, nil)
+	if err != nil {
+		c.Fatalf("frame: %v", err)
+	}
+	fr.SetTTL(0)
+	fr.SetSequenceTime(time.Now())
+	_ = fr.SignRaw(signer.Addr.PrivateKey)
+	fr.SetTTL(1)
+	data, _ := fr.FrameDataWithMargins(2, 0)
+	data = append([]byte(nil), data...)
+	data[0], data[1] = byte(len(data)>>8), byte(len(data))
+	fr.ReturnToPool()
+	return data
+}
+
+func c04Challenge(c *core.Case, msg []byte) []byte {
+	fb := frame.NewFrameBuilder()
+	ps := fb.GetPooledSlice(len(msg) + 64)
+	copy(ps[2:], msg[2:])
+	f, err := fb.ParseFrame(ps[2:len(msg)], ps, 2)
+	if err != nil {
+		c.Fatalf("parse parked request: %v", err)
+	}
+	defer f.ReturnToPool()
+	var req c04Request
+	if err := cbor.Unmarshal(f.MessageData(), &req); err != nil {
+		c.Fatalf("decode parked request: %v", err)
+	}
+	return append([]byte(nil), req.Challenge...)
+}
+
+// TestC04Relay: the far end of A's connection is an adversary that owns an
+// ordinary identity C and, as C, runs a handshake of its own with the honest
+// router B - with A's challenge in C's request. Everything B says (made out to
+// C) is passed on to A. B never talks to A, the adversary has no key of B: A
+// must not register a link to B.
+func TestC04Relay(t *testing.T) {
+	pool := ids.Routable()
+	core.Run(t, core.Opts{ID: "C04", Quick: 60, Thorough: 3000}, func(c *core.Case) {
+		ia := c.Pick("idA", len(pool))
+		ib := (ia + 1 + c.Pick("idB", len(pool)-1)) % len(pool)
+		ic := (ia + 1 + c.Pick("idC", len(pool)-1)) % len(pool)
+		if ic == ib {
+			ic = (ib + 1) % len(pool)
+			if ic == ia {
+				ic = (ic + 1) % len(pool)
+			}
+		}
+		vn := vnet.New()
+		a, err1 := vn.AddNode("A", pool[ia], vnet.NodeOpts{})
+		b, err2 := vn.AddNode("B", pool[ib], vnet.NodeOpts{})
+		cn, err3 := vn.AddNode("C", pool[ic], vnet.NodeOpts{})
+		if err1 != nil || err2 != nil || err3 != nil {
+			c.Fatalf("nodes: %v %v %v", err1, err2, err3)
+		}
+		aDials := c.Chance("a.dials", 3, 4)
+		e := wire.DialOne(a, aDials)
+		cb := wire.Dial(cn, b)
+		defer func() {
+			e.Close()
+			_ = e.WaitDone()
+			if e.Link != nil {
+				e.Link.Close(nil)
+			}
+			cb.Teardown()
+		}()
+		step := func(end *wire.End, msg []byte) bool {
+			prev := end.Parked()
+			if err := end.Write(msg); err != nil {
+				return false
+			}
+			return end.WaitReaction(prev) == nil
+		}
+		for _, x := range []*wire.End{e, cb.A, cb.B} {
+			if err := x.WaitParked(1); err != nil {
+				c.Class("inconclusive-time-budget")
+				return
+			}
+		}
+		reqA, reqC, reqB := e.Take(0), cb.A.Take(0), cb.B.Take(0)
+		useA := c.Chance("copy-challenge", 4, 5)
+		if useA {
+			reqC = c04Resign(c, reqC, c04Challenge(c, reqA), pool[ic])
+		}
+		// B answers C's request (B's response echoes the challenge in it), C answers
+		// B's request, B acknowledges C's response.
+		if !step(cb.B, reqC) || cb.B.Parked() == 0 {
+			c.Class("relay/b-did-not-answer")
+			return
+		}
+		respB := cb.B.Take(0)
+		if !step(cb.A, reqB) || cb.A.Parked() == 0 {
+			c.Class("relay/c-did-not-answer")
+			return
+		}
+		respC := cb.A.Take(0)
+		if !step(cb.B, respC) || cb.B.Parked() == 0 {
+			c.Class("relay/b-did-not-acknowledge")
+			return
+		}
+		ackB := cb.B.Take(0)
+		// All of it goes to A.
+		for i, msg := range [][]byte{reqB, respB, ackB} {
+			if e.Done() {
+				break
+			}
+			if !step(e, msg) && !e.Done() {
+				c.Class("inconclusive-time-budget")
+				return
+			}
+			_ = i
+		}
+		// Give A the chance to finish what it started.
+		if !e.Done() {
+			e.Close()
+		}
+		_ = e.WaitDone()
+		if e.Panicked() {
+			c.Fatalf("relayed handshake panicked A's link setup: %v", e.Err)
+		}
+		if l := a.Peer.GetLink(b.IP()); l != nil || (e.Err == nil && e.Link != nil) {
+			c.Fatalf("A registered a link to B (%v) although B's messages were made out to C and B never saw this connection (A dials=%v, A's challenge copied=%v, setup error: %v)", b.IP(), aDials, useA, e.Err)
+		}
+		c.Eval(fmt.Sprintf("relay|dials=%v|copy=%v", aDials, useA), useA, func() any {
+			return map[string]any{"kind": "relay of B's messages for C", "a_dials": aDials, "challenge_copied": useA, "A_err": fmt.Sprint(e.Err)}
+		})
+	})
+}
